@@ -79,6 +79,7 @@ type Contract struct {
 	Inline       bool // callers encode the body instead of using the contract (the contract is still verified for the function itself)
 	SplitReturns bool // check the postconditions once per path into a shared return block (no heap merge)
 	NoConvContents bool // string([]byte): model only the length (keeps a quantified fact out of functions that do not need it)
+	NoReads      []NoReads
 	StringsExact bool // model the contents of concatenated strings (quantified axioms)
 	Handler  bool // deferred recover handler: recover() yields an arbitrary value
 	RecoverBy string // callee key of the deferred recover handler: runtime panics after its Defer are converted to errors
@@ -301,6 +302,13 @@ func splitTop(s string, sep byte) []string {
 	return parts
 }
 
+// NoReads: a structural read-confinement obligation (see verify.go noReadsObligations).
+type NoReads struct {
+	Label  string
+	Props  []string
+	Fields []string
+}
+
 var reValueMethod = regexp.MustCompile(`^([A-Za-z_]\w*)\.([A-Za-z_]\w*)$`)
 
 var reLabel = regexp.MustCompile(`^\[([^\]]*)\]\s*`)
@@ -520,6 +528,28 @@ func (sp *Specs) loadSpecFile(path, pkgPath string) error {
 				return fail(err)
 			}
 			cur.FieldsOf = append(cur.FieldsOf, c)
+		case "noreads":
+			// noreads[label;props] pkg.Type.Field ... : neither the function nor any repo function it
+			// (transitively, statically) calls selects one of these fields
+			nr := NoReads{}
+			r := strings.TrimSpace(rest)
+			if m := reLabel.FindStringSubmatch(r); m != nil {
+				parts := strings.SplitN(m[1], ";", 2)
+				nr.Label = strings.TrimSpace(parts[0])
+				if len(parts) == 2 {
+					for _, pr := range strings.Split(parts[1], ",") {
+						if pr = strings.TrimSpace(pr); pr != "" {
+							nr.Props = append(nr.Props, pr)
+						}
+					}
+				}
+				r = r[len(m[0]):]
+			}
+			nr.Fields = strings.Fields(r)
+			if len(nr.Fields) == 0 {
+				return fail(fmt.Errorf("noreads: field names expected"))
+			}
+			cur.NoReads = append(cur.NoReads, nr)
 		case "mapwrites":
 			cur.MapWrites = rest
 		case "preserves":
